@@ -30,6 +30,7 @@ var authItems = []string{
 	"C0-honest-client", "C1-no-cert", "C2-untrusted-ca", "C3-cv-other-key", "C4-cv-other-transcript", "C5-cv-omitted", "C6-selfsigned-allowed", "C7-selfsigned-cv-other-key", "C8-ifgiven-no-cert", "C9-expired", "C9-server-clock-after", "C10-eku-serverauth-only", "V2-server-callback-rejects", "C11-foreign-cert-first-own-cert-second", "C12-certificate-message-omitted",
 	"S16-dual-usage-sign-cert-enc-key-not-held", "S17-lookalike-of-trusted-root", "S18-leaves-issued-by-v1-end-entity", "C13-lookalike-of-trusted-root", "C14-leaf-issued-by-v1-end-entity", "TS7-leaf-issued-by-v1-end-entity", "TC14-leaf-issued-by-v1-end-entity",
 	"S21-session-of-another-name-resumed", "S20-only-unknown-extended-key-usage", "C15-only-unknown-extended-key-usage",
+	"S22-name-constrained-ca-permits-name(allowed)", "S22-name-constrained-ca-permits-parent-domain(allowed)", "S22-name-constrained-ca-lookalike-suffix", "S22-name-constrained-ca-other-domain", "S22-name-constrained-ca-subdomain-only",
 	"S19-wildcard-one-label(allowed)", "S19-wildcard-deeper-name", "S19-wildcard-parent-name", "TS19-wildcard-one-label(allowed)", "TS19-wildcard-deeper-name", "TS19-wildcard-parent-name",
 	"TS0-honest-server", "TS1-untrusted-root", "TS3-wrong-name", "TS10-rsa-key-not-held", "TS5-ecdhe-params-signed-by-other-key", "TS6-ecdhe-params-signature-over-other-randoms", "TS9-ecdhe-params-signature-garbage", "TS4-ecdsa-cert-for-rsa-suite",
 	"TC0-honest-client", "TC1-no-cert", "TC2-untrusted-ca", "TC3-cv-other-key", "TC4-cv-other-transcript", "TC5-cv-omitted", "TC5-cv-omitted-enc-only-cert", "TC3-cv-other-key-enc-only-cert", "TC12-certificate-message-omitted", "TC8-ifgiven-no-cert",
@@ -68,6 +69,7 @@ type impRun struct {
 	CallbackRejects bool      // the victim's VerifyPeerCertificate callback returns an error
 	TLS             bool      // plain TLS 1.2 victim and impostor (RSA / ECDHE_RSA suites)
 	VictimRoots     string    // TLS victim client: trusted root (default rsaCA)
+	ExtraRoot       string    // GMSSL victim client: a further trust anchor besides caA (the GMSSL client does not take intermediates from the Certificate message)
 	OtherNameFirst  bool      // session 1: the victim client asks the impostor for server2.sim (legitimately) and caches the session
 }
 
@@ -87,7 +89,8 @@ func drawImpostor(c *simkit.Choice, ent *simkit.Stream) impRun {
 		sc := &reftls.ServerCfg{Rand: ent, Suites: []uint16{ir.Suite}, Sign: ident("srv-sign", true), Enc: ident("srv-enc", true)}
 		ir.scfg = sc
 		items := []string{"S0-honest-server", "S1-untrusted-ca", "S2-expired", "S2-not-yet-valid", "S2-client-clock-before", "S2-client-clock-after", "S2-one-expired", "S3-wrong-name", "S3-one-wrong-name", "S3-ip-literal-server-name",
-			"S4-rsa-sign-cert", "S4-p256-sign-cert", "S4-rsa-enc-cert", "S5-skx-other-key", "S6-skx-replayed-randoms", "S7-skx-other-enc-cert", "S8-skx-omitted", "S9-skx-malformed", "S10-no-enc-key", "S11-certs-swapped", "S12-one-cert", "S13-eku-clientauth-only", "S14-keyusage-sign-cert", "S14-keyusage-enc-cert", "V1-client-callback-rejects", "S15-untrusted-ca-ships-its-root", "S15-extra-unrelated-selfsigned", "S16-dual-usage-sign-cert-enc-key-not-held", "S17-lookalike-of-trusted-root", "S18-leaves-issued-by-v1-end-entity", "S19-wildcard-one-label(allowed)", "S19-wildcard-deeper-name", "S19-wildcard-parent-name", "S21-session-of-another-name-resumed", "S20-only-unknown-extended-key-usage"}
+			"S4-rsa-sign-cert", "S4-p256-sign-cert", "S4-rsa-enc-cert", "S5-skx-other-key", "S6-skx-replayed-randoms", "S7-skx-other-enc-cert", "S8-skx-omitted", "S9-skx-malformed", "S10-no-enc-key", "S11-certs-swapped", "S12-one-cert", "S13-eku-clientauth-only", "S14-keyusage-sign-cert", "S14-keyusage-enc-cert", "V1-client-callback-rejects", "S15-untrusted-ca-ships-its-root", "S15-extra-unrelated-selfsigned", "S16-dual-usage-sign-cert-enc-key-not-held", "S17-lookalike-of-trusted-root", "S18-leaves-issued-by-v1-end-entity", "S19-wildcard-one-label(allowed)", "S19-wildcard-deeper-name", "S19-wildcard-parent-name", "S21-session-of-another-name-resumed", "S20-only-unknown-extended-key-usage",
+			"S22-name-constrained-ca-permits-name(allowed)", "S22-name-constrained-ca-permits-parent-domain(allowed)", "S22-name-constrained-ca-lookalike-suffix", "S22-name-constrained-ca-other-domain", "S22-name-constrained-ca-subdomain-only"}
 		ir.Item = items[c.Choose(len(items), simkit.LFault)]
 		switch ir.Item {
 		case "S0-honest-server":
@@ -194,6 +197,21 @@ func drawImpostor(c *simkit.Choice, ent *simkit.Stream) impRun {
 			sc.Sign, sc.Enc = ident("srv2-sign", true), ident("srv2-enc", true)
 			ir.NeedS1 = true
 			ir.OtherNameFirst = true
+		case "S22-name-constrained-ca-permits-name(allowed)", "S22-name-constrained-ca-permits-parent-domain(allowed)", "S22-name-constrained-ca-lookalike-suffix", "S22-name-constrained-ca-other-domain", "S22-name-constrained-ca-subdomain-only":
+			// an intermediate CA under the trusted root whose name constraints permit one DNS
+			// subtree issues a pair for server.sim: fine when server.sim lies in the subtree
+			// ("server.sim", ".sim"), refused when the subtree is another domain, only a
+			// sub-domain ("www.server.sim"), or merely a string suffix ("rver.sim")
+			ca := map[string]string{"S22-name-constrained-ca-permits-name(allowed)": "ncok", "S22-name-constrained-ca-permits-parent-domain(allowed)": "ncdot", "S22-name-constrained-ca-lookalike-suffix": "ncsfx",
+				"S22-name-constrained-ca-other-domain": "ncother", "S22-name-constrained-ca-subdomain-only": "ncsub"}[ir.Item]
+			sc.Sign = &reftls.Identity{Chain: [][]byte{pki.DER("srv" + ca + "-sign")}, Key: pki.D("srv" + ca + "-sign")}
+			sc.Enc = &reftls.Identity{Chain: [][]byte{pki.DER("srv" + ca + "-enc")}, Key: pki.D("srv" + ca + "-enc")}
+			// (the constrained CA is one of the client's trust anchors: the GMSSL client
+			// verifies the pair against its pool only)
+			ir.ExtraRoot = ca
+			if ca == "ncok" || ca == "ncdot" {
+				ir.Expect = expComplete
+			}
 		case "S20-only-unknown-extended-key-usage":
 			// certificates whose extended key usage lists only a purpose nobody knows (a
 			// private "document signing" OID): not good for server authentication
@@ -474,6 +492,9 @@ func runAuthImpostor(c *simkit.Choice, r *simkit.Rec) {
 				vc := victimClientCfg(s, ir.Suite, entV, skew)
 				if ir.VictimName != "" && tag == "2" {
 					vc.ServerName = ir.VictimName
+				}
+				if ir.ExtraRoot != "" {
+					vc.RootCAs = pki.Pool("caA", ir.ExtraRoot)
 				}
 				if ir.OtherNameFirst {
 					vc.ClientSessionCache = victimCache
